@@ -78,3 +78,8 @@ package encryption
 //@   requires handler != nil && handler.keyWrapper != nil
 //@   safety
 //@   ensures [short-rejected] len(encryptedData) < 1 || len(encryptedData) < 1 + old(int(encryptedData[0])) + 12 + 16 ==> err != nil
+// (tamper detection covers the WHOLE stored form: the wrapped key next to the ciphertext is part of it. Data comes back
+//  only from opening the ciphertext under the key that this handler's master key unwraps from the wrapped key stored in
+//  THIS value - never under a key the handler happens to hold, which would leave the 40 wrapped-key bytes unchecked)
+//@   call decryptData requires [a-stored-value-is-opened-only-under-the-key-unwrapped-from-its-own-wrapped-key] ghost.unwrapErr == nil && ghost.unwrapper == handler.keyWrapper && arrOf(ghost.unwrappedFrom) == arrOf(encryptedData) && offOf(ghost.unwrappedFrom) == offOf(encryptedData) + 1 && len(ghost.unwrappedFrom) == old(int(encryptedData[0])) && arg1 == ghost.unwrappedKey
+//@   ensures [data-only-after-opening-under-the-unwrapped-key] err == nil ==> ghost.unwrapErr == nil && ghost.unwrapper == handler.keyWrapper && ghost.openKey == ghost.unwrappedKey
